@@ -62,6 +62,7 @@ def _case(draw):
         c['split'] = draw(st.sampled_from([False, True, True]))
         c['subset'] = draw(st.lists(st.booleans(), min_size=3, max_size=3))
         c['negative'] = draw(st.booleans())
+        c['block_order'] = draw(st.sampled_from(['descending', 'ascending', 'rotated']))
     if part == 'cache':
         pool = st.sampled_from(['get', 'set_interp', 'get', 'clear', 'path_b', 'path_a', 'add', 'get', 'memory'])
         # every history contains a load, a mode change and a further request somewhere
@@ -281,7 +282,12 @@ def check_cia(out, c, tmp):
         out.cls('cia:split-ranges')
     with open(hit, 'w') as f:
         for (a, b, temps) in ranges:
-            for it in temps:
+            order_t = list(temps)
+            if c.get('block_order') == 'descending':
+                order_t = order_t[::-1]
+            elif c.get('block_order') == 'rotated' and len(order_t) > 1:
+                order_t = order_t[1:] + order_t[:1]
+            for it in order_t:
                 f.write('%20s %9.3f %9.3f %6d %6.1f %9.3e %5.3f %27s %3d\n' % (pair, wn[a], wn[b - 1], b - a, Tg[it], abs(coef[it, a:b]).max(), -0.999, 'verif', 1))
                 for k in range(a, b):
                     f.write('%10.4f %.10e\n' % (wn[k], coef[it, k]))
